@@ -109,6 +109,13 @@ func (e *Env) resolveType(t *TypeExpr) SType {
 			st.Go = types.NewMap(k.Go, v.Go)
 		}
 		return st
+	case "chan":
+		el := e.resolveType(t.Elem)
+		st := SType{K: KChan, Elem: &el}
+		if el.Go != nil {
+			st.Go = types.NewChan(types.SendRecv, el.Go)
+		}
+		return st
 	case "set":
 		return setOf(e.resolveType(t.Elem))
 	case "seq":
@@ -187,6 +194,9 @@ func (e *Env) eval(x Expr) TV {
 		return TV{vc.strLit(x.V), SType{K: KStr, Go: types.Typ[types.String]}}
 	case EIdent:
 		if tv, ok := e.vars[x.Name]; ok {
+			if cell, isCell := tv.V.(FreeCellVal); isCell {
+				return vc.cellContent(e.heap, cell.P)
+			}
 			return tv
 		}
 		if x.Name == "result" {
@@ -733,6 +743,23 @@ func (e *Env) evalCall(x ECall) TV {
 	case "tagof":
 		v := e.eval(x.Args[0])
 		return TV{vc.tagOf(e.asTerm(v)), tInt}
+	case "sentlen", "recvlen", "recvevents", "recvoffers", "sendoffers":
+		c := e.asInt(e.eval(x.Args[0]))
+		comp := map[string]string{"sentlen": chSentLen, "recvlen": chRecvLen, "recvevents": chRecvEvents, "recvoffers": chRecvOffers, "sendoffers": chSendOffers}[x.Fn]
+		return TV{vc.chGet(e.heap, comp, c), tInt}
+	case "sentat", "recvat":
+		c := e.asInt(e.eval(x.Args[0]))
+		i := e.asInt(e.eval(x.Args[1]))
+		comp := chSent
+		if x.Fn == "recvat" {
+			comp = chRecv
+		}
+		return TV{Select(vc.chGet(e.heap, comp, c), i), tInt}
+	case "chanclosed":
+		c := e.asInt(e.eval(x.Args[0]))
+		return TV{vc.chGet(e.heap, chClosed, c), tBool}
+	case "selects":
+		return TV{vc.chGet(e.heap, chSelects, Zero), tInt}
 	case "held":
 		// held(lockExpr, mode) with mode 0 (none), 1 (R), 2 (W)
 		v := e.eval(x.Args[0])
@@ -1274,4 +1301,17 @@ func (vc *VC) sidx(off, i Term) Term {
 	}
 	vc.declareOnce("sidx", "(declare-fun sidx (Int Int) Int)\n(assert (forall ((o! Int) (i! Int)) (! (= (sidx o! i!) (+ o! i!)) :pattern ((sidx o! i!)))))")
 	return app(SInt, "sidx", off, i)
+}
+
+
+// FreeCellVal stands for a captured variable of the closure under verification: the name denotes the CONTENT of the
+// variable in the heap the expression is evaluated in (so old(x) and x may differ), not the cell's address.
+type FreeCellVal struct{ P PtrVal }
+
+func (vc *VC) cellContent(h *Heap, p PtrVal) TV {
+	if p.Elem.K == KStruct || p.Elem.K == KUnit {
+		return TV{p, p.Elem} // a located struct: fields and ghost fields are read through the location
+	}
+	v := vc.loadValue(&State{pc: True, heap: h}, p.Loc, p.Elem)
+	return TV{vc.specValue(v, p.Elem), p.Elem}
 }
